@@ -4,7 +4,7 @@ Monitor: set arithmetic on the requested address set, evaluated on every call of
 remote/plc_modbus.merge() and shatter() made by the workload.
 """
 from __future__ import annotations
-import itertools
+import itertools, threading
 
 PROPERTY = 'C19'
 META = {
@@ -28,7 +28,7 @@ ASSUMPTIONS = ['register bank = address // 10000, as remote/plc_modbus.merge def
                'the empty range set is not judged (merge([]) raises StopIteration->RuntimeError; the poller never passes it)',
                'ranges have count >= 1: a zero-count "range" requests no register and is not a range of the property\'s domain (the unchanged merge lets such entries extend a run, e.g. merge([(1,2),(5,0),(7,0)], reach=3) polls register 6; harmless, and no caller passes them)']
 REQUIRED = ['merge:nested', 'merge:overlap', 'merge:adjacent', 'merge:disjoint', 'merge:duplicate',
-            'merge:within-reach-gap', 'merge:limit-split', 'shatter:calls', 'poller:configs']
+            'merge:within-reach-gap', 'merge:limit-split', 'shatter:calls', 'poller:configs', 'poller:added-while-polling']
 TIMEOUT = {'quick': 300, 'thorough': 1800}
 SOFT = {'quick': 25, 'thorough': 420}
 
@@ -216,6 +216,18 @@ def value_of(address):
     return (address * 2654435761) % 65521
 
 
+class _HookedDict(dict):
+    """the poller's address table; after a complete iteration over it, a one-shot callback runs (in the iterating thread)"""
+    after_iteration = None
+
+    def __iter__(self):
+        for k in dict.__iter__(self):
+            yield k
+        cb, self.after_iteration = self.after_iteration, None
+        if cb is not None:
+            cb()
+
+
 def poller_part(ctx, rounds):
     """The real poller_modbus thread, with only the device I/O (_read) replaced by a recorder: what it asks the device for must be
     a correct merge of the polled addresses, and afterwards every polled address -- and no other -- holds the device's value."""
@@ -253,6 +265,7 @@ def poller_part(ctx, rounds):
         reach = rng.choice([1, 2, 10, 100])
         wit = {'poller': True, 'addresses': sorted(addrs), 'reach': reach}
         p = Recorder('verif', client=modbus_client_tcp(host='127.0.0.1', port=9), reach=reach)
+        p._data = _HookedDict(p._data)
         try:
             for a in sorted(addrs, key=lambda x: rng.random()):
                 p.poll(a)
@@ -260,6 +273,49 @@ def poller_part(ctx, rounds):
             deadline = time.time() + 10
             while p.counter < 2 and time.time() < deadline:
                 time.sleep(0.002)
+            if i % 2 == 0 and p.counter >= 2:
+                # registers requested while the poller thread is running, at the most awkward moment: right after the poller has gone
+                # through the addresses it knows (as if another thread's poll() were scheduled exactly there -- a switch CPython may make).
+                # Whatever the poller keeps between cycles, a requested register must be polled within the next few cycles.
+                late = []
+                for _ in range(rng.choice([2, 4])):
+                    a = base + rng.randrange(span)
+                    if a // 10000 != base // 10000 or a in addrs or a in late:
+                        continue
+                    fired = threading.Event()
+                    p._data.after_iteration = lambda a=a, fired=fired: (p.poll(a), fired.set())
+                    a1 = base + rng.randrange(span)
+                    if a1 // 10000 == base // 10000 and a1 != a:
+                        p.poll(a1)                  # an ordinary request from this thread; the awkward one follows when the poller next goes through its table
+                        late.append(a1)
+                    if not fired.wait(10):
+                        ctx.inconclusive_because('the poller did not iterate its addresses within 10 s')
+                        return
+                    late.append(a)
+                    c0 = p.counter
+                    deadline = time.time() + 20
+                    while p.counter < c0 + 4 and time.time() < deadline:
+                        time.sleep(0.002)
+                    if p.counter < c0 + 4:
+                        ctx.inconclusive_because('the poller thread did not complete 4 cycles in 20 s after a late addition')
+                        return
+                    ctx.count('poller:added-while-polling')
+                    bad = [x for x in late if p._data.get(x) != value_of(x)]
+                    if bad:
+                        a = bad[0]
+                        wit['addresses'] = sorted(addrs | set(late))
+                        wit['added_while_polling'] = late
+                        ctx.violation('poller-never-polls-requested-register', 'register %d was requested while the poller was between taking its addresses and polling them; '
+                                      '4 complete cycles later it still holds %r (the device has %r)' % (a, p._data.get(a), value_of(a)), wit)
+                        return
+                addrs |= set(late)
+                wit['addresses'] = sorted(addrs)
+                wit['added_while_polling'] = late
+                p.calls = []
+                c0 = p.counter
+                deadline = time.time() + 20
+                while p.counter < c0 + 2 and time.time() < deadline:
+                    time.sleep(0.002)
             cycles = p.counter
         finally:
             p.stop()
